@@ -321,6 +321,12 @@ type liveQuery struct {
 	row   bool
 	fd    filterDesc
 	where string // custom SelectOptions.Where ("" = nil options)
+	// twin: another rerunner on the same LiveDB issues exactly this query
+	twin bool
+	// other is the same query in the other rerunner; attempts counts how often
+	// this query's rerunner has started to (re-)issue it
+	other    *liveQuery
+	attempts int64
 
 	mu         sync.Mutex
 	runs       int
@@ -412,9 +418,10 @@ type history struct {
 	hookEvents  int64
 	// live SELECTs during which (between the hooks around the snapshot) some
 	// commit became visible
-	commitInWindow int64
-	inflight       int64 // compute functions entered and not yet returned
-	lookupsFailed  int64 // information_schema lookups failed by the harness
+	commitInWindow                 int64
+	inflight                       int64 // compute functions entered and not yet returned
+	lookupsFailed                  int64 // information_schema lookups failed by the harness
+	slowReads, slowReadsOverlapped int64
 
 	queries []*liveQuery
 	byID    map[int]*liveQuery
@@ -444,6 +451,38 @@ func (h *history) perturb(after bool) {
 		}
 	default:
 		time.Sleep(d)
+	}
+}
+
+// slowRead keeps a SELECT of a query that another rerunner issues too "in
+// flight" after its snapshot was taken (a slow connection / large result):
+// for a third of these reads it waits, bounded, until some later commit became
+// visible and its events were handed to the binlog, plus a moment for the
+// other subscriber to be re-run by them. This is perturbation only; no
+// verdict depends on it.
+func (h *history) slowRead(q *liveQuery) {
+	h.hookMu.Lock()
+	hold := h.hookR.Intn(3) == 0
+	h.hookMu.Unlock()
+	if !hold {
+		return
+	}
+	q.mu.Lock()
+	seen := q.snapSeen
+	q.mu.Unlock()
+	atomic.AddInt64(&h.slowReads, 1)
+	before := atomic.LoadInt64(&q.other.attempts)
+	for k := 0; k < 100; k++ { // at most ~20 ms
+		if atomic.LoadInt64(&h.commits) > seen && atomic.LoadInt64(&h.pushed) == atomic.LoadInt64(&h.enqueued) &&
+			atomic.LoadInt64(&q.other.attempts) > before {
+			// a later commit is visible, its events were delivered, and the other
+			// subscriber has started to re-issue the query while this read is
+			// still in flight
+			atomic.AddInt64(&h.slowReadsOverlapped, 1)
+			time.Sleep(time.Millisecond)
+			return
+		}
+		time.Sleep(200 * time.Microsecond)
 	}
 }
 
@@ -1158,6 +1197,9 @@ func runHistory(run *vlib.Run, i int, fixed *fixedPlan) {
 			h.perturb(true)
 			if id, ok := st.Tag.(int); ok {
 				if q := h.byID[id]; q != nil {
+					if q.twin && q.other != nil {
+						h.slowRead(q)
+					}
 					q.mu.Lock()
 					if atomic.LoadInt64(&h.commits) != q.snapSeen {
 						atomic.AddInt64(&h.commitInWindow, 1)
@@ -1256,6 +1298,23 @@ func runHistory(run *vlib.Run, i int, fixed *fixedPlan) {
 		}
 		perRerunner = append(perRerunner, qs)
 	}
+	if fixed == nil && len(perRerunner) > 0 && r.Intn(2) == 0 {
+		// a second, independent subscriber issuing exactly the queries of an
+		// existing one through the same LiveDB
+		src := perRerunner[r.Intn(len(perRerunner))]
+		var qs []*liveQuery
+		for _, o := range src {
+			o.twin = true
+			qid++
+			q := &liveQuery{id: qid, table: o.table, row: o.row, fd: o.fd, where: o.where, twin: true, other: o}
+			o.other = q
+			qs = append(qs, q)
+			h.queries = append(h.queries, q)
+			h.byID[q.id] = q
+		}
+		perRerunner = append(perRerunner, qs)
+		run.Count("histories_with_twin_subscribers", 1)
+	}
 	if pkSentinels != nil {
 		for _, q := range pkSentinels {
 			qid++
@@ -1309,6 +1368,7 @@ func runHistory(run *vlib.Run, i int, fixed *fixedPlan) {
 					}
 					filter = shared
 				}
+				atomic.AddInt64(&q.attempts, 1)
 				res := safeQuery(fakesql.WithTag(ctx, q.id), h.ldb, q.table, q.row, filter, q.where)
 				q.mu.Lock()
 				q.runs++
@@ -1454,6 +1514,8 @@ func runHistory(run *vlib.Run, i int, fixed *fixedPlan) {
 	run.Count("reruns_after_last_delivery", int(rerunsAfter))
 	run.Count("undecodable_events_injected", len(faults))
 	run.Count("column_lookups_failed", int(atomic.LoadInt64(&h.lookupsFailed)))
+	run.Count("twin_slow_reads", int(atomic.LoadInt64(&h.slowReads)))
+	run.Count("twin_slow_reads_overlapping_a_delivered_commit", int(atomic.LoadInt64(&h.slowReadsOverlapped)))
 	run.Count("decode_failures_logged_by_binlog", len(decodeErrors))
 	run.Count("protocol:"+proto, 1)
 	if schemaChange != "" {
